@@ -434,6 +434,45 @@ func TestC09(t *testing.T) {
 		}
 	}
 	ev.Class("field-delta-pairs", nDelta)
+	// (a3) description strings of 0..4 bytes whose first bytes are text-encoding edge values (byte order marks,
+	// lone surrogates, NUL, 0xFF): every mluc record and the v2 ASCII field of every profile-bearing seed
+	var nText int64
+	edge := [][]byte{{0xFE}, {0xFF}, {0xFE, 0xFF}, {0xFF, 0xFE}, {0xEF, 0xBB, 0xBF}, {0xD8, 0x00}, {0xDC, 0x00}, {0xD8}, {0x00}, {0xFE, 0xFF, 0xFE}, {0xD8, 0x00, 0xD8, 0x00}}
+	for _, sd := range all {
+		m := withEmbeddedICC(sd)
+		if len(sd.Data) > 40000 {
+			continue
+		}
+		for fi, f := range m.Fields {
+			if f.Name != "icc.mluc.rec.length" && f.Name != "icc.desc.asciicount" {
+				continue
+			}
+			for _, e := range edge {
+				for _, ln := range []uint64{uint64(len(e)), uint64(len(e)) + 1, 1, 0} {
+					d := mut.Apply(sd.Data, m, []mut.Op{{Kind: "set", Field: fi, Value: ln}}, nil)
+					pos := -1
+					if f.Name == "icc.mluc.rec.length" && fi+1 < len(m.Fields) && m.Fields[fi+1].Name == "icc.mluc.rec.offset" {
+						for gi := fi; gi >= 0; gi-- {
+							if m.Fields[gi].Name == "icc.mluc.count" {
+								pos = m.Fields[gi].Off - 8 + int(m.Fields[fi+1].Get(sd.Data))
+								break
+							}
+						}
+					} else if f.Name == "icc.desc.asciicount" {
+						pos = f.Off + 4
+					}
+					if pos >= 0 && pos+len(e) <= len(d) {
+						copy(d[pos:], e)
+					}
+					for _, target := range targetsFor(sd.Kind) {
+						rc.run(Case{Desc: fmt.Sprintf("%s: %s@%d=%d with string bytes % x", sd.Name, f.Name, f.Off, ln, e), Target: target, Data: d}, true)
+						nText++
+					}
+				}
+			}
+		}
+	}
+	ev.Class("text-edge-bytes", nText)
 	// (c) truncations
 	var nTrunc int64
 	for _, sd := range all {
